@@ -164,9 +164,15 @@ def _axes(case):
     return [int(v) for v in ax] if isinstance(ax, list) else [int(ax)]
 
 
+def _norm_axes(case):
+    """axes as axis_shuffle reads them since fix 5396d924: a negative axis counts from the last one"""
+    nd = len(case["shape"])
+    return [a + nd if a < 0 else a for a in _axes(case)]
+
+
 def _axis_oracle(case):
     shape = case["shape"]
-    axes = set(a for a in _axes(case) if 0 <= a < len(shape))
+    axes = set(a for a in _norm_axes(case) if 0 <= a < len(shape))
     free = [i for i in range(len(shape)) if i not in axes]
     if not free:
         return {"perms": []}
@@ -225,11 +231,9 @@ class C17(Prop):
                "sus_loop_safe_under_any_rounding); the pre-repair defects D7a/D7b/D7c are regression cases in corpus()",
                "axis_shuffle: the model is the gather form (value at m comes from m with the first free coordinate "
                "rearranged), not the sequence of in-place slice shuffles; tied to the code by correspondence only"]
-    ASSUMPTIONS = ["weights non-negative with positive sum, at least one draw requested (size 0 makes "
-                   "rng.uniform(0, inf) raise OverflowError: reported as an observation, not generated)",
-                   "cross tables and arrays are C-contiguous (outcross_shuffle works on xconfig.ravel(), which is a "
-                   "copy for other layouts: the table is then left untouched; observation, not generated)",
-                   "axes are given as non-negative integers (sliceaxisix does not normalise negative axes)",
+    ASSUMPTIONS = ["weights non-negative with positive sum; sizes include the empty request (0, (2,0), ...)",
+                   "cross tables in C order, Fortran order and as column slices of a wider table",
+                   "axes of either sign (negative = counted from the last axis), duplicates and out-of-range entries",
                    "entries of `a` are distinct in generated cases, so that draws can be counted by value",
                    "a model/implementation difference in the binary64 stream is waived only when a pointer lies "
                    "within 2^-40 (relative to the total weight) of a cumulative-weight boundary; the Spec is never waived"]
@@ -289,7 +293,7 @@ class C17(Prop):
              "rng": {"gen": "pcg64", "seed": 4}},
             {"kind": "outcross", "nrow": 2, "ncol": 4, "x": [1, 1, 3, 4, 2, 2, 5, 6], "layout": "C",
              "rng": {"gen": "pcg64", "seed": 5}},
-            # findings D7d (empty request), D7e (non-contiguous table), D7f (negative axis)
+            # regression cases of the fixes f1943417 (empty request), 5d3f529a (non-contiguous table), 5396d924 (negative axis)
             {"kind": "sus", "p": [1, 2], "a": [1, 2], "size": 0, "rng": {"gen": "randomstate", "seed": 1}, "regime": "exact"},
             {"kind": "sus", "p": [1, 2], "a": [1, 2], "size": [2, 0], "rng": {"gen": "pcg64", "seed": 1}, "regime": "exact"},
             {"kind": "outcross", "nrow": 2, "ncol": 2, "x": [1, 1, 2, 2], "layout": "F", "rng": {"gen": "pcg64", "seed": 1}},
@@ -470,7 +474,7 @@ class C17(Prop):
             if r < 0.45:
                 c = self._gen_sus(rng)
                 if rng.random() < 0.02:
-                    c["size"] = rng.choice([0, [0], [2, 0], [0, 3]])     # an empty request (finding D7d)
+                    c["size"] = rng.choice([0, [0], [2, 0], [0, 3]])     # an empty request
                 out.append(c)
             elif r < 0.65:
                 out.append(self._gen_tiled(rng))
@@ -531,7 +535,7 @@ class C17(Prop):
             arr = numpy.array(data, dtype=numpy.int64).reshape(shape)
             ax = case["axis"]
             ax = tuple(ax) if isinstance(ax, list) else int(ax)
-            axes = set(a for a in _axes(case) if 0 <= a < len(shape))
+            axes = set(a for a in _norm_axes(case) if 0 <= a < len(shape))
             if len(axes) == len(shape) and _prod(shape) > 0:
                 # every axis iterated: a[s] is a 0-d item, rng.shuffle must reject it
                 try:
@@ -539,15 +543,7 @@ class C17(Prop):
                     return {"raised": None, "after": [int(v) for v in arr.ravel()]}
                 except TypeError as e:
                     return {"raised": canon.exc_tag(e), "after": [int(v) for v in arr.ravel()]}
-            requested = set(a + len(shape) if a < 0 else a for a in _axes(case))
-            try:
-                S.axis_shuffle(arr, ax, rng)
-            except TypeError as e:
-                # only legitimate when the *requested* axes (negative ones counted from the end) leave no free
-                # axis: a code that normalises negative axes must reject the 0-d items
-                if len(requested & set(range(len(shape)))) == len(shape):
-                    return {"raised": canon.exc_tag(e), "after": [int(v) for v in arr.ravel()]}
-                raise
+            S.axis_shuffle(arr, ax, rng)
             return {"after": [int(v) for v in arr.ravel()], "shape": [int(v) for v in arr.shape],
                     "perms": _axis_oracle(case)["perms"]}
         if k == "outcross":
@@ -598,7 +594,7 @@ class C17(Prop):
             return [{"op": "c17.sliceaxisix", "shape": case["shape"], "axis": _axes(case)}]
         if k == "outcross":
             return [{"op": "c17.outcross", "nrow": case["nrow"], "ncol": case["ncol"], "x": case["x"],
-                     "orders": obs["orders"], "c_contiguous": obs["c_contiguous"]},
+                     "orders": obs["orders"]},
                     {"op": "c17.spec_outcross", "nrow": case["nrow"], "ncol": case["ncol"], "before": case["x"],
                      "after": obs["after"]}]
         raise ValueError(k)
@@ -748,36 +744,18 @@ class C17(Prop):
 
     # ------------------------------------------------------------------ signature of a failing case
     def signature(self, case, obs, verdict):
-        """attributes the KNOWN_FINDINGS matchers (D7d, D7e, D7f) refer to; each is the mechanism, recomputed
-        from the case / the observation"""
+        """no finding is open for C17; the signature only describes a failure for the replay file"""
         kind = case["kind"]
         sig = {"kind": kind}
-        raised = isinstance(obs, dict) and "__exception__" in obs
-        if raised:
+        if isinstance(obs, dict) and "__exception__" in obs:
             sig["fail"] = "exception"
             sig["exception_class"] = obs.get("text", "").split(":")[0]
         if kind == "sus":
             sig["size_zero"] = _prod(_size_list(case["size"])) == 0
-            if not sig["size_zero"]:
-                try:
-                    orc = _sus_oracle(case)
-                    sig["offset_zero_or_below_rounding_unit"] = orc["offset_zero_or_absorbed"]
-                    sig["offset_within_rounding_of_spacing"] = bool(
-                        orc["d"] - orc["offset"] <= 4 * numpy.spacing(orc["tot"]))
-                except Exception:
-                    pass
-        elif kind == "outcross" and not raised:
-            sig["c_contiguous"] = bool(obs.get("c_contiguous", True))
-            try:
-                sp = verdict["answers"][1]["ok"]
-                only_local = (sp["multiset_ok"] and not sp["rows_worse"] and sp["total_ok"] and sp["improving"] > 0
-                              and obs["after"] == case["x"])
-                sig["fail"] = "table_untouched_not_local_optimum" if only_local else "other"
-            except Exception:
-                sig["fail"] = "unknown"
-        elif kind == "axis" and not raised:
+        elif kind == "outcross":
+            sig["layout"] = case.get("layout", "C")
+        elif kind == "axis":
             sig["negative_axis"] = any(a < 0 for a in _axes(case))
-            sig["fail"] = "values_left_requested_slice"
         return sig
 
     # ------------------------------------------------------------------ shrinking
@@ -850,12 +828,14 @@ class C17(Prop):
                 setattr(mod, name, old)
 
         def sus_variant(fixed_offset=False, rule=None, ascending=False, noshuffle=False, ptr_skip=False,
-                        linspace=False):
+                        linspace=False, empty_ok=True):
             """the function as it is (after fix fc545079) with one thing changed"""
             def f(a, p, size=None, rng=None):
                 if isinstance(size, (int, numpy.integer)):
                     size = (size,)
                 k = numpy.prod(size)
+                if k == 0 and empty_ok:
+                    return a[numpy.zeros(size, dtype=int)]
                 tot = p.sum()
                 d = tot / k
                 ind = p.argsort() if ascending else p.argsort()[::-1]
@@ -939,11 +919,17 @@ class C17(Prop):
             flat = a.reshape(-1)
             rng.shuffle(flat)                                    # permutes across slices
 
-        def outcross_variant(first_pass_only=False, no_swap_back=False):
+        def axis_no_normalisation(a, axis=None, rng=None):
+            if isinstance(axis, (int, numpy.integer)):
+                axis = (axis,)
+            for s_ in A.sliceaxisix(a.shape, axis):
+                rng.shuffle(a[s_])
+
+        def outcross_variant(first_pass_only=False, no_swap_back=False, ravel=False):
             def f(xconfig, rng=None):
                 def objfn(x):
                     return sum(len(r) - len(numpy.unique(r)) for r in x)
-                xr = xconfig.ravel()
+                xr = xconfig.ravel() if ravel else xconfig.flat
                 best = objfn(xconfig)
                 ex = numpy.array([[i, j] for i in range(len(xr)) for j in range(i + 1, len(xr))])
                 it = True
@@ -1037,6 +1023,9 @@ class C17(Prop):
             ("sus_pointers_by_linspace", lambda: patch(S, sus, sus_variant(linspace=True))),
             ("outcross_pruned_with_wrong_row_length", lambda: patch(S, "outcross_shuffle", outcross_pruned)),
             ("sus_revert_of_fix_fc545079", lambda: patch(S, sus, sus_prerepair)),
+            ("sus_revert_of_fix_f1943417", lambda: patch(S, sus, sus_variant(empty_ok=False))),
+            ("outcross_revert_of_fix_5d3f529a", lambda: patch(S, "outcross_shuffle", outcross_variant(ravel=True))),
+            ("axis_revert_of_fix_5396d924", lambda: patch(S, "axis_shuffle", axis_no_normalisation)),
             ("sus_fixed_offset", lambda: patch(S, sus, sus_variant(fixed_offset=True))),
             ("sus_always_right_closed", lambda: patch(S, sus, sus_variant(rule="lt"))),
             ("sus_always_right_open", lambda: patch(S, sus, sus_variant(rule="le"))),
